@@ -723,14 +723,16 @@ impl<'a> BenchContext<'a> {
                 .reserve(self.options.sample_count.unwrap_or(1) as usize);
         }
 
+        // Measured (and cached) on first use, which takes a while; do this
+        // before `initial_start` so it does not count as benchmarking time.
+        let bench_overheads = timer.bench_overheads();
+
         let skip_ext_time = self.options.skip_ext_time.unwrap_or_default();
         let initial_start = if skip_ext_time {
             None
         } else {
             Some(Timestamp::start(timer_kind))
         };
-
-        let bench_overheads = timer.bench_overheads();
 
         while {
             // Conditions for when sampling is over:
